@@ -23,7 +23,7 @@
 From Coq Require Import Permutation Sorting.Sorted.
 From GoCar Require Import Bytes Varint Cid Header Frame V2Header Scan Index IndexGen.
 From GoCarProofs Require Import BytesFacts CidFacts HeaderFacts ScanFacts IndexSort IndexLoad IndexCanon
-  IndexGenFacts IndexGenLookup IndexGenExamples.
+  IndexRoundtrip IndexGenFacts IndexGenLookup IndexGenExamples IndexGenRog.
 
 Local Notation sort_ok srt :=
   (forall l, Permutation (srt l) l /\
@@ -204,3 +204,97 @@ Theorem C03_hypotheses_hold_for_canonical_decoder :
     header_ok dec_header_canon o roots /\ (10 <= g_maxh o -> pragma_ok dec_header_canon o).
 Proof. exact (fun o roots Hr H1 H2 => conj (hdr_fits_canon o roots Hr H1 H2) (pragma_good_canon o)). Qed.
 Print Assumptions C03_hypotheses_hold_for_canonical_decoder.
+
+(* ---- (5) ReadOrGenerateIndex ------------------------------------------------------------------------
+   [read_or_generate_index_with srt hdrdec codec o file]: ReadVersion, then GenerateIndex (CARv1, or
+   CARv2 whose header has no index) over the data reader, or index.ReadFrom at IndexOffset. *)
+
+(* CARv1: it is the generated index: the index of exactly the section records *)
+Theorem C03_read_or_generate_carv1 :
+  forall hdrdec (srt : list irec -> list irec) codec i0 o roots bs,
+    idx_new codec = Some i0 ->
+    header_ok hdrdec o roots -> blocks_ok bs -> cids_fit o bs ->
+    blen (enc_payload roots bs) < two63 ->
+    read_or_generate_index_with srt hdrdec codec o (enc_payload roots bs)
+    = Ok (idx_load_with srt (section_recs o (hlen roots) bs) i0).
+Proof. exact rog_v1. Qed.
+Print Assumptions C03_read_or_generate_carv1.
+
+(* CARv2 without an index (IndexOffset = 0), any padding and trailer: the same generated index *)
+Theorem C03_read_or_generate_carv2_without_index :
+  forall hdrdec (srt : list irec -> list irec) codec i0 o hi lo pad roots bs trailer,
+    idx_new codec = Some i0 ->
+    pragma_ok hdrdec o -> header_ok hdrdec o roots -> blocks_ok bs -> cids_fit o bs ->
+    hi < two64 -> lo < two64 ->
+    blen (v2_container hi lo 0 pad (enc_payload roots bs) trailer) < two63 ->
+    read_or_generate_index_with srt hdrdec codec o (v2_container hi lo 0 pad (enc_payload roots bs) trailer)
+    = Ok (idx_load_with srt (section_recs o (hlen roots) bs) i0).
+Proof. exact rog_v2_without_index. Qed.
+Print Assumptions C03_read_or_generate_carv2_without_index.
+
+(* CARv2 with an index: exactly index.ReadFrom of the bytes at IndexOffset, for ANY payload bytes and
+   trailer (nothing is scanned, the codec option is ignored) *)
+Theorem C03_read_or_generate_reads_the_index_section :
+  forall hdrdec (srt : list irec -> list irec) codec o hi lo ioff pad payload trailer,
+    pragma_ok hdrdec o -> hi < two64 -> lo < two64 -> 0 < ioff < two63 -> 0 < blen payload ->
+    blen (v2_container hi lo ioff pad payload trailer) < two63 ->
+    read_or_generate_index_with srt hdrdec codec o (v2_container hi lo ioff pad payload trailer)
+    = match idx_read (drop ioff (v2_container hi lo ioff pad payload trailer)) with
+      | Ok (i, _) => Ok i
+      | Err e => Err e
+      end.
+Proof. exact rog_v2_reads_index. Qed.
+Print Assumptions C03_read_or_generate_reads_the_index_section.
+
+(* ... so an index written anywhere after the payload (index padding [gap]) comes back unchanged *)
+Theorem C03_read_or_generate_returns_the_written_index :
+  forall hdrdec (srt : list irec -> list irec) codec o hi lo pad payload gap i rest,
+    pragma_ok hdrdec o -> hi < two64 -> lo < two64 -> 0 < blen payload -> idx_wf i ->
+    blen (v2_container hi lo (51 + blen pad + blen payload + blen gap) pad payload (gap ++ idx_write i ++ rest)) < two63 ->
+    read_or_generate_index_with srt hdrdec codec o
+      (v2_container hi lo (51 + blen pad + blen payload + blen gap) pad payload (gap ++ idx_write i ++ rest))
+    = Ok i.
+Proof. exact rog_v2_with_written_index. Qed.
+Print Assumptions C03_read_or_generate_returns_the_written_index.
+
+(* soundness and completeness lifted.  [answers_exactly o codec roots bs i] (proofs/IndexGenRog.v) is
+   the conjunction of C03_lookup_exact and C03_lookup_sound for the index value i: for every key,
+   GetAll = spec_lookup as a multiset, and every reported offset decodes to an indexed section
+   carrying the key.
+   (i) generating branches: CARv1 and index-less CARv2 give one and the same index, which answers
+   exactly *)
+Theorem C03_read_or_generate_generated_answers_exactly :
+  forall hdrdec (srt : list irec -> list irec), sort_ok srt ->
+  forall codec i0 o hi lo pad roots bs trailer,
+    idx_new codec = Some i0 ->
+    pragma_ok hdrdec o -> header_ok hdrdec o roots -> blocks_ok bs -> cids_fit o bs ->
+    hi < two64 -> lo < two64 ->
+    blen (v2_container hi lo 0 pad (enc_payload roots bs) trailer) < two63 ->
+    blen (compact (section_recs o (hlen roots) bs)) <= max_alloc ->
+    exists i,
+      read_or_generate_index_with srt hdrdec codec o (enc_payload roots bs) = Ok i /\
+      read_or_generate_index_with srt hdrdec codec o (v2_container hi lo 0 pad (enc_payload roots bs) trailer) = Ok i /\
+      answers_exactly o codec roots bs i.
+Proof. exact rog_generated_answers_exactly. Qed.
+Print Assumptions C03_read_or_generate_generated_answers_exactly.
+
+(* (ii) reading branch: when the file carries its payload's own index (what GenerateIndex / Finalize
+   wrote for these sections under codec', with any sort.Sort behaviour srt'), the result answers
+   exactly -- under codec', whatever codec the caller asked for *)
+Theorem C03_read_or_generate_own_index_answers_exactly :
+  forall hdrdec (srt srt' : list irec -> list irec) codec codec' i0' o hi lo pad roots bs gap rest,
+    sort_ok srt' -> idx_new codec' = Some i0' ->
+    pragma_ok hdrdec o -> hi < two64 -> lo < two64 ->
+    blocks_ok bs -> blen (enc_payload roots bs) < two63 ->
+    (blen (compact (section_recs o (hlen roots) bs)) <= max_alloc /\
+     (codec' = codec_mh_sorted ->
+      N.of_nat (length (group_by r_code (section_recs o (hlen roots) bs))) < two31)) ->
+    blen (v2_container hi lo (51 + blen pad + blen (enc_payload roots bs) + blen gap) pad (enc_payload roots bs)
+            (gap ++ idx_write (idx_load_with srt' (section_recs o (hlen roots) bs) i0') ++ rest)) < two63 ->
+    exists i,
+      read_or_generate_index_with srt hdrdec codec o
+        (v2_container hi lo (51 + blen pad + blen (enc_payload roots bs) + blen gap) pad (enc_payload roots bs)
+           (gap ++ idx_write (idx_load_with srt' (section_recs o (hlen roots) bs) i0') ++ rest)) = Ok i /\
+      answers_exactly o codec' roots bs i.
+Proof. exact rog_own_index_answers_exactly. Qed.
+Print Assumptions C03_read_or_generate_own_index_answers_exactly.
